@@ -225,7 +225,7 @@ impl Mesh {
 
             let k = (i + 1) % steps;
 
-            faces.push([(i * 2) as u32, (i * 2 + 1) as u32, (k * 2 + 1) as u32]);
+            faces.push([(i * 2) as u32, (k * 2 + 1) as u32, (i * 2 + 1) as u32]);
             faces.push([(i * 2) as u32, (k * 2) as u32, (k * 2 + 1) as u32]);
         }
 
